@@ -1,3 +1,6 @@
--- Root of the `Sdmmc` library: model, specifications, lemmas, property theorems.
-import Sdmmc.Model.Crc
-import Sdmmc.Spec.Poly
+-- Root of the `Sdmmc` library: model, specifications, lemmas, property theorems, driver.
+import Sdmmc.Driver
+import Sdmmc.Props.C15
+import Sdmmc.Props.C17
+import Sdmmc.Props.C18
+import Sdmmc.Props.C19
